@@ -527,6 +527,23 @@ class DestHandler:
         self._fsm_advancement_after_packets_were_sent()
         pdu_holder = PduHolder(packet)
         if (
+            packet is not None
+            and self.transmission_mode == TransmissionMode.ACKNOWLEDGED
+            and self.states.step
+            in [
+                TransactionStep.WAITING_FOR_MISSING_DATA,
+                TransactionStep.TRANSFER_COMPLETION,
+                TransactionStep.WAITING_FOR_FINISHED_ACK,
+            ]
+            and pdu_holder.pdu_type == PduType.FILE_DIRECTIVE
+            and pdu_holder.pdu_directive_type == DirectiveType.EOF_PDU
+            and pdu_holder.to_eof_pdu().condition_code == ConditionCode.NO_ERROR
+            and self._params.completion_disposition != CompletionDisposition.CANCELED
+        ):
+            # The sender repeats its EOF PDU because our ACK got lost. CFDP 4.7.2: Every EOF PDU
+            # must be acknowledged.
+            self._prepare_eof_ack_packet()
+        if (
             self.states.step
             in [
                 TransactionStep.RECEIVING_FILE_DATA,
@@ -823,6 +840,10 @@ class DestHandler:
         Returns False if the FSM should be called again."""
         assert self._params.positive_ack_params.ack_timer is not None
         assert self._params.remote_cfg is not None
+        if self.states.packets_ready:
+            # PDUs generated earlier in this call (the ACK of a repeated EOF PDU) need to be
+            # retrieved first, the timer is checked again on the next call.
+            return None
         if self._params.positive_ack_params.ack_timer.timed_out():
             if (
                 self._params.positive_ack_params.ack_counter + 1
